@@ -338,6 +338,125 @@ theorem rpc_address_canonical (a : Bytes) (ha : a.length = 32) :
     decodeEmitterAddress (hexChars a) = .ok a := by
   simp [decodeEmitterAddress, unhexChars_hexChars, ha]
 
+/-! ## backfill (`RpcBackfill = true`) -/
+
+/-- What the loop over the missing ids computes, in closed form: as long as no node fails, exactly the served byte strings are
+forwarded (in id order, nothing else, nothing twice) and exactly the ids nobody served are reported back. -/
+theorem backfill_loop_spec (answer : Nat → NodeAnswer) :
+    ∀ (ids : List Nat) (fwd : List Bytes) (unf : List Nat), (∀ i ∈ ids, answer i ≠ .failed) →
+      backfillLoop answer ids fwd unf =
+        (fwd ++ ids.filterMap (fun i => match answer i with | .served b => some b | _ => none),
+         some (unf ++ ids.filter (fun i => answer i = .absent))) := by
+  intro ids
+  induction ids with
+  | nil => intro fwd unf _; simp [backfillLoop]
+  | cons i rest ih =>
+    intro fwd unf h
+    have hi := h i (List.mem_cons_self ..)
+    have hr : ∀ j ∈ rest, answer j ≠ .failed := fun j hj => h j (List.mem_cons_of_mem _ hj)
+    unfold backfillLoop
+    cases ha : answer i with
+    | served b =>
+      simp only
+      rw [ih _ _ hr]
+      simp [ha]
+    | absent =>
+      simp only
+      rw [ih _ _ hr]
+      simp [ha]
+    | failed => exact absurd ha hi
+
+/-- Whatever the nodes answer (failures included): every forwarded byte string was served by a node for one of the ids asked
+for; the admin service forwards nothing of its own making. -/
+theorem backfill_forwards_only_served (answer : Nat → NodeAnswer) :
+    ∀ (ids : List Nat) (fwd : List Bytes) (unf : List Nat) (b : Bytes),
+      b ∈ (backfillLoop answer ids fwd unf).1 → b ∈ fwd ∨ ∃ i ∈ ids, answer i = .served b := by
+  intro ids
+  induction ids with
+  | nil => intro fwd unf b h; left; simpa [backfillLoop] using h
+  | cons i rest ih =>
+    intro fwd unf b h
+    unfold backfillLoop at h
+    cases ha : answer i with
+    | served b' =>
+      rw [ha] at h
+      rcases ih _ _ b h with h1 | ⟨j, hj, hs⟩
+      · rcases List.mem_append.1 h1 with h2 | h2
+        · exact .inl h2
+        · right
+          refine ⟨i, List.mem_cons_self .., ?_⟩
+          have : b = b' := by simpa using h2
+          rw [ha, this]
+      · exact .inr ⟨j, List.mem_cons_of_mem _ hj, hs⟩
+    | absent =>
+      rw [ha] at h
+      rcases ih _ _ b h with h1 | ⟨j, hj, hs⟩
+      · exact .inl h1
+      · exact .inr ⟨j, List.mem_cons_of_mem _ hj, hs⟩
+    | failed =>
+      rw [ha] at h
+      exact .inl h
+
+/-- **Backfill for an in-range stream.** The ids requested are exactly the missing sequences of that stream (`specGap`), every
+forwarded VAA was served for one of them, and — when no node fails — the reply lists exactly the missing sequences nobody
+served. The store is not an output of the call: the admin service only forwards (to the processor's verified inbound path). -/
+theorem fmm_backfill_spec (vs : List Vaa) (hwf : ∀ v ∈ vs, v.WF) (ec tc : Nat) (hec : ec < 65536) (htc : tc < 65536)
+    (s : List Char) (a : Bytes) (hs : unhexChars s = some a) (ha : a.length = 32) (answer : Nat → NodeAnswer) :
+    match specGap (streamSeqs (putsOf vs) ⟨ec, a, tc⟩) with
+    | .ok m f l =>
+      (∀ b ∈ (findMissingBackfill (run (putsOf vs)) ec s tc answer).forwarded, ∃ i ∈ m, answer i = .served b) ∧
+      ((∀ i ∈ m, answer i ≠ .failed) →
+        (findMissingBackfill (run (putsOf vs)) ec s tc answer).forwarded =
+            m.filterMap (fun i => match answer i with | .served b => some b | _ => none) ∧
+        (findMissingBackfill (run (putsOf vs)) ec s tc answer).result =
+          .ok ⟨(m.filter (fun i => answer i = .absent)).map fun v =>
+            decChars ec ++ ('/' :: (hexChars a ++ ('/' :: (decChars tc ++ ('/' :: decChars v))))), f, l⟩)
+    | .err => (findMissingBackfill (run (putsOf vs)) ec s tc answer).forwarded = [] := by
+  have hc : copyTo32 a = a := by
+    unfold copyTo32
+    rw [← ha, List.take_left']
+    rfl
+  unfold findMissingBackfill
+  simp only [hs, hc, Nat.mod_eq_of_lt hec, Nat.mod_eq_of_lt htc]
+  rw [gap_spec vs hwf ⟨ec, a, tc⟩ ha]
+  cases hg : specGap (streamSeqs (putsOf vs) ⟨ec, a, tc⟩) with
+  | err => rfl
+  | ok m f l =>
+    simp only
+    constructor
+    · intro b hb
+      have key := backfill_forwards_only_served answer m [] [] b
+      cases hl : backfillLoop answer m [] [] with
+      | mk fwd r =>
+        rw [hl] at hb key
+        have hb' : b ∈ fwd := by cases r <;> simpa using hb
+        rcases key hb' with h1 | h2
+        · cases h1
+        · exact h2
+    · intro hnf
+      rw [backfill_loop_spec answer m [] [] hnf]
+      simp
+
+/-- With no node able to serve anything the call degenerates to the plain gap report. -/
+theorem backfill_nothing_served (st : Store) (ec tc : Nat) (s : List Char) :
+    (findMissingBackfill st ec s tc (fun _ => .absent)).forwarded = [] ∧
+    (findMissingBackfill st ec s tc (fun _ => .absent)).result = findMissingMessages st ec s tc := by
+  unfold findMissingBackfill findMissingMessages
+  cases unhexChars s with
+  | none => exact ⟨rfl, rfl⟩
+  | some b =>
+    simp only
+    cases findGap st (ec % 65536) (copyTo32 b) (tc % 65536) with
+    | err => exact ⟨rfl, rfl⟩
+    | ok ids f l =>
+      simp only
+      rw [backfill_loop_spec _ ids [] [] (by intro i _ h; cases h)]
+      have hf : ∀ l : List Nat, l.filter (fun _ => true) = l := by
+        intro l; induction l with
+        | nil => rfl
+        | cons x xs ih => simp [List.filter, ih]
+      simp [hf]
+
 /-! ## non-vacuity: a concrete store with look-alike target chains 2 / 25 and an overwrite -/
 
 private def mk (tc seq : Nat) (pl : Bytes) : Vaa :=
@@ -368,5 +487,7 @@ example : (findMissingMessages (run (putsOf hist)) 13 (hexChars addrA) 2).toOpti
   rw [fmm_spec hist (by decide) 13 2 (by decide) (by decide) _ addrA (unhexChars_hexChars _) (by decide)]; decide
 example : findGap (run (putsOf hist)) 13 addrA 2 = findGap (run (putsOf [mk 2 0 [1], mk 2 3 [3], mk 2 3 [5]])) 13 addrA 2 :=
   gap_unaffected _ _ (by decide) (by decide) ⟨13, addrA, 2⟩ (by decide) (by decide)
+example : backfillLoop (fun i => if i = 1 then .served [9, 9] else .absent) [1, 2] [] [] = ([[9, 9]], some [2]) := by decide
+example : backfillLoop (fun i => if i = 1 then .served [9, 9] else .failed) [1, 2, 3] [] [] = ([[9, 9]], none) := by decide
 
 end Whv.C12
